@@ -140,6 +140,21 @@ class LegInterp:
                 return a == b
             if isinstance(test.ops[0], ast.NotEq):
                 return a != b
+        if isinstance(test, ast.Compare) and len(test.ops) == 1 and isinstance(test.left, ast.Name) and \
+                test.left.id in self.consts and isinstance(test.ops[0], (ast.In, ast.NotIn)) and \
+                isinstance(test.comparators[0], (ast.Tuple, ast.List, ast.Set)) and \
+                all(isinstance(x, ast.Constant) for x in test.comparators[0].elts):
+            # membership of a known option value in a literal collection
+            inside = self.consts[test.left.id] in [x.value for x in test.comparators[0].elts]
+            return inside if isinstance(test.ops[0], ast.In) else not inside
+        if isinstance(test, ast.Compare) and len(test.ops) == 1 and isinstance(test.left, ast.Constant) and \
+                isinstance(test.comparators[0], ast.Name) and test.comparators[0].id in self.consts and \
+                isinstance(test.ops[0], (ast.Eq, ast.NotEq)):
+            same = self.consts[test.comparators[0].id] == test.left.value
+            return same if isinstance(test.ops[0], ast.Eq) else not same
+        if isinstance(test, ast.UnaryOp) and isinstance(test.op, ast.Not):
+            c = self.const_test(test.operand)
+            return None if c is None else not c
         return None
 
     def assign(self, t, v, node):
